@@ -28,9 +28,14 @@ pub fn adversarial(l: L) -> Vec<char> {
 
 impl C15 {
     pub fn new(tier: Tier) -> C15 {
+        Self::build(tier, tier.pick(6, 7))
+    }
+    pub fn with_bound(n: u32) -> C15 {
+        Self::build(Tier::Quick, n)
+    }
+    fn build(tier: Tier, n: u32) -> C15 {
         let mut sets = Vec::new();
         for l in LANGS {
-            let n = tier.pick(6, 7);
             sets.push((l, format!("adversarial12<={}", n), adversarial(l), 0, n));
             let m = tier.pick(6, 8);
             sets.push((l, format!("F6-words<={}", m), fam6(l), 1, m));
